@@ -25,14 +25,18 @@ import os
 from ..gen import c03_common as K
 from ..gen import c04_gen as G4
 from ..gen import c04_hist as HI
+from ..gen import c04_obj as OB
 
 PID = "C04"
 COQ_HEADER = ("From Coq Require Import List NArith ZArith Bool.\nImport ListNotations.\n"
-              "From SK Require Import lib.Tok lib.LGraph model.C03_Model model.C04_Model.\n")
+              "From SK Require Import lib.Tok lib.LGraph model.C03_Model model.C04_Model model.C04_Reactor.\n")
 SHARD = 16
 IMPL_TIMEOUT = 2400
 COQ_TIMEOUT = 1500
 MAXR = 6                   # explicit-hydrogen re-matches of the identity shipped to the model
+MAX_RAW = 40               # raw matches shipped to the model's pruning (rule with at most MAX_RULE atoms)
+MAX_RULE = 16
+CHK_HOST, CHK_PAT, CHK_NRAW = 30, 10, 120      # the model enumerates the raw matches itself (verified enumerator) below these sizes
 
 RULE = ("(corpus reaction satisfying the precondition, written as in the corpus or renumbered + rewritten from the harness PRNG, "
         "template = centre | full ITS, direction, strategy); non-trivial = the identity match exists and the centre has >= 2 changed "
@@ -190,6 +194,7 @@ def _graph_level(case):
     import networkx as nx
     hcc, pcc = nx.number_connected_components(host), nx.number_connected_components(pat)
     o["guard"] = bool(strategy == "comp" and pcc > 0 and hcc > pcc)
+    o["raw"], o["mappings"] = raw, mappings
     o.update(rule=rule, left=left, flag=flag, pat=pat, idm=idm, nraw=len(raw), nmaps=len(mappings),
              id_in_raw=idm in raw, id_kept=idm in mappings, its_list=its_list, its_err=its_err)
     # ---- gluing along the identity (static method, no RDKit)
@@ -243,6 +248,12 @@ def _regen_bits(T, A, B):
 
 def prepare(case):
     case = dict(case)
+    if case.get("obj"):
+        try:
+            return _prepare_object(case)
+        except Exception as e:
+            case["pre"] = {"error": type(e).__name__ + ": " + str(e)[:160]}
+            return case
     try:
         o = graph_level(case)
     except Exception as e:
@@ -256,7 +267,12 @@ def prepare(case):
                        "remaps": None if o["remaps"] is None else [[int(n) for n in o["idm"]], [K.map_pairs(m) for m in o["remaps"]]],
                        "guard": o["guard"], "kept": [K.map_pairs(m) for m in o["kept"]],
                        "nchanged": sum(1 for _, _, d in o["rc0"].edges(data=True) if d["order"][0] != d["order"][1]),
-                       "mode": o["mode"], "outside": bool(o["outside"])}
+                       "mode": o["mode"], "outside": bool(o["outside"]),
+                       # the matching stage: raw matches in engine order for the model's pruning; whether the model enumerates them itself
+                       "raw": ([K.map_pairs(m) for m in o["raw"]]
+                               if o["nraw"] <= MAX_RAW and o["rule"].rc.raw.number_of_nodes() <= MAX_RULE else None),
+                       "chk_raw": bool(o["host"].number_of_nodes() <= CHK_HOST and o["pat"].number_of_nodes() <= CHK_PAT
+                                       and o["nraw"] <= CHK_NRAW)}
     except Exception as e:
         case["pre"] = {"error": "encoding: " + str(e)[:160]}
     return case
@@ -293,12 +309,88 @@ def history(case):
 
 
 def impl(case):
+    if case.get("obj"):
+        return _impl_object(case)
     if case.get("hist"):
-        base = _impl_kept(case)
+        base = _impl_m(case)
         if base == ["SKIP"]:
             return base
         return [base, [1 if rec["equal"] else 0 for rec in history(case)]]
-    return _impl_kept(case)
+    return _impl_m(case)
+
+
+def _impl_m(case):
+    """[[plain observable, kept bit], matching stage]"""
+    base = _impl_kept(case)
+    if base == ["SKIP"]:
+        return base
+    from ..tok import S
+    o = graph_level(case)
+    pre = case["pre"]
+    nonneg = 1 if all(int(d.get("hcount", 0)) >= 0 for _, d in o["pat"].nodes(data=True)) else 0
+    rawset = [S([K.map_obs(m) for m in o["raw"]])] if pre.get("chk_raw") else []
+    kept = [[K.map_obs(m) for m in o["mappings"]]] if pre.get("raw") is not None else []
+    return [base, [nonneg, rawset, kept]]
+
+
+# ------------------------------------------------------------------ OBJECT cases (harness/gen/c04_obj.py)
+
+def _obj_inputs(case):
+    """(host, template graph, invert, mode keywords, SynRule object or None, prepared flag) of an object case"""
+    if case["obj"] == "crash":
+        host, tpl, rule = OB.crash_inputs()
+        return host, tpl, False, {}, rule
+    o = graph_level(case)
+    if "skip" in o:
+        return None
+    from synkit.IO.chem_converter import rsmi_to_its
+    # the template as the caller hands it over: NOT inverted (the reactor inverts)
+    return o["host"], rsmi_to_its(case["rsmi"], core=bool(case["core"])), bool(case["invert"]), K.MODES[o["mode"]], None
+
+
+def _impl_object(case):
+    pre = case.get("pre")
+    if pre is not None and ("error" in pre or "skip" in pre):
+        return ["SKIP"]
+    inp = _obj_inputs(case)
+    if inp is None:
+        return ["SKIP"]
+    host, tpl, inv, kw, rule = inp
+    rec = OB.record(host, tpl, inv, kw, rule)
+    return [1, 1 if rec["flag"] else 0, OB.run(host, tpl, inv, kw, case["script"], rule)]
+
+
+def _prepare_object(case):
+    inp = _obj_inputs(case)
+    if inp is None:
+        case["pre"] = {"skip": "outside the precondition"}
+        return case
+    host, tpl, inv, kw, rule = inp
+    rec = OB.record(host, tpl, inv, kw, rule)
+    if rec["flag"]:
+        case["pre"] = {"skip": "explicit-hydrogen path (re-matching is not part of the object model's recorded inputs)"}
+        return case
+    if len(rec["raw"]) > OB.MAX_RAW:
+        case["pre"] = {"skip": "more than %d raw matches" % OB.MAX_RAW}
+        return case
+    pre = {"raw": rec["raw"], "sers": rec["sers"]}
+    if case["obj"] == "crash":
+        pre["host"], pre["tpl"] = K.c_host(host), K.c_its(tpl)
+    else:
+        o = graph_level(case)
+        pre["G"], pre["H"] = _host_json(o["G"]), _host_json(o["H"])
+        pre["mode"] = o["mode"]
+    case["pre"] = pre
+    return case
+
+
+def _coq_object(case):
+    pre = case["pre"]
+    raw, tbl, sc = OB.c_maps(pre["raw"]), OB.c_sers(pre["sers"]), OB.c_script(case["script"])
+    if case["obj"] == "crash":
+        return ("run_object (RO false true false (SK.model.C06_Model.SMember 0%%N) None false) (Some false) %s %s %s %s %s"
+                % (pre["host"], pre["tpl"], raw, tbl, sc))
+    return "run_object_own %s %s %s %s %s %s %s" % (K.cb(case["core"]), K.cb(case["invert"]), _c_hostj(pre["G"]), _c_hostj(pre["H"]), raw, tbl, sc)
 
 
 def _impl_kept(case):
@@ -446,13 +538,18 @@ def coq_case(case):
         pre = prepare(case)["pre"]
     if "error" in pre or "skip" in pre:
         return None
+    if case.get("obj"):
+        return _coq_object(dict(case, pre=pre))
     rm = pre["remaps"]
     cr = "None" if rm is None else "(Some (%s, %s))" % (K.cl([K.cN(n) for n in rm[0]]),
                                                         K.cl([K.cl(["(%s, %s)" % (K.cN(p), K.cN(h)) for p, h in x]) for x in rm[1]]))
     kept = pre.get("kept") or []
     ck = K.cl([K.cl(["(%s, %s)" % (K.cN(p), K.cN(h)) for p, h in x]) for x in kept])
-    term = "run_c04k %s %s %s %s %s %s %s" % (K.cb(case["core"]), K.cb(case["invert"]), K.cb(pre.get("guard", False)),
-                                              _c_hostj(pre["G"]), _c_hostj(pre["H"]), cr, ck)
+    strat = "(SK.model.C06_Model.SStr %s)" % K.cl([K.cN(b) for b in case.get("strategy", "all").encode()])
+    craw = "None" if pre.get("raw") is None else "(Some %s)" % OB.c_maps(pre["raw"])
+    term = "run_c04m %s %s %s %s %s %s %s %s %s %s" % (K.cb(case["core"]), K.cb(case["invert"]), K.cb(pre.get("guard", False)),
+                                                       _c_hostj(pre["G"]), _c_hostj(pre["H"]), cr, ck, strat,
+                                                       K.cb(pre.get("chk_raw", False)), craw)
     if case.get("hist"):
         k = sum(1 for st in HI.SCRIPTS[case["hist"]] if st[0] != "edit")
         return "L [%s; pure_history %d%%nat]" % (term, k)
@@ -503,6 +600,8 @@ def _sub_is_implicit_form(sub, host):
 
 
 def oracle(case):
+    if case.get("obj"):
+        return []            # correspondence only: the VALUES of the reads are compared with the state machine of the model
     fails = _oracle_plain(case)
     if case.get("hist") and not (case.get("pre") or {}).get("skip"):
         try:
@@ -613,8 +712,12 @@ def _explained_by_outside(o):
 
 def _unwrap(case, obs):
     """observable layers: [[plain, kept bit], history bits] / [plain, kept bit]"""
+    if case.get("obj"):
+        return ["SKIP"]
     if case.get("hist") and isinstance(obs, list) and len(obs) == 2 and isinstance(obs[0], list):
         obs = obs[0]
+    if isinstance(obs, list) and len(obs) == 2 and isinstance(obs[0], list) and isinstance(obs[1], list) and len(obs[1]) == 3:
+        obs = obs[0]          # drop the matching stage
     if isinstance(obs, list) and len(obs) == 2 and isinstance(obs[0], list) and obs[1] in (0, 1):
         obs = obs[0]
     return obs
@@ -638,16 +741,31 @@ def distribution(cases, obss):
         if not isinstance(o, list) or not o or o[0] in ("SKIP", "EXC"):
             d["skipped"] += 1
             continue
+        if c.get("obj"):
+            oc = d.setdefault("object_cases", dict(cases=0, reads=0, raised=0, scripts={}))
+            oc["cases"] += 1
+            oc["scripts"][c["script"]] = oc["scripts"].get(c["script"], 0) + 1
+            if len(o) == 3 and isinstance(o[2], list):
+                oc["reads"] += len(o[2])
+                oc["raised"] += sum(1 for v in o[2] if v == [])
+            continue
         if c.get("hist") and len(o) == 2 and isinstance(o[0], list):
             d["history_scripts"][c["hist"]] = d["history_scripts"].get(c["hist"], 0) + 1
             d["history_steps"] += len(o[1])
             if o[0] and o[0][0] == "SKIP":
                 continue
-        if isinstance(o, list) and len(o) == 2 and isinstance(o[0], list) and o[1] in (0, 1) and not c.get("hist"):
+            o = o[0]
+        if isinstance(o, list) and len(o) == 2 and isinstance(o[1], list) and len(o[1]) == 3 and isinstance(o[0], list):
+            mt = d.setdefault("matching_stage", dict(raw_enumerated_by_model=0, pruning_by_model=0, pruned_away=0))
+            mt["raw_enumerated_by_model"] += 1 if o[1][1] else 0
+            mt["pruning_by_model"] += 1 if o[1][2] else 0
+            pre0 = c.get("pre") or {}
+            if o[1][2] and pre0.get("raw") is not None:
+                mt["pruned_away"] += max(0, len(pre0["raw"]) - len(o[1][2][0]))
+            o = o[0]
+        if isinstance(o, list) and len(o) == 2 and isinstance(o[0], list) and o[1] in (0, 1):
             d["kept_regenerates"] = d.get("kept_regenerates", 0) + o[1]
-        o = _unwrap(c, o)
-        if True:
-            pass
+            o = o[0]
         pre = c.get("pre") or {}
         for k, v in (("mode", pre.get("mode")), ("template", _tplkind(c)), ("direction", _dir(c)), ("strategy", c.get("strategy")),
                      ("variant", "original" if not c.get("variant") else "rewritten"), ("corpus", str(c.get("cid", "?")).split("#")[0].split(":")[0])):
@@ -730,6 +848,30 @@ def _hist_cases(tier, rng):
     return out
 
 
+def _mk_obj(hname, r, core, inv, script):
+    c = _mk("hand:" + hname, r, core, inv, "all", 0, None)
+    c["kind"] = "object-" + script
+    c["name"] = "%s:obj:%s" % (c["name"], script)
+    c["obj"] = "own"
+    c["script"] = script
+    return c
+
+
+def _obj_cases(tier, rng):
+    """one reactor OBJECT per case, a script of reads, every VALUE compared with the state machine of model/C04_Reactor.v"""
+    out = []
+    scripts = sorted(OB.SCRIPTS)
+    for hname, r in HAND:
+        for core in (True, False):
+            for inv in (False, True):
+                for sc in (scripts if (tier != "quick" or hname in HIST_RX) else [rng.choice(scripts)]):
+                    out.append(_mk_obj(hname, r, core, inv, sc))
+    for sc in scripts:
+        out.append(dict(kind="object-crash", name="hand:crash-rule:obj:%s" % sc, cid="hand:crash-rule", obj="crash", script=sc,
+                        core=True, invert=False, strategy="all", variant=0, rsmi=""))
+    return out
+
+
 def gen_cases(tier, rng):
     K.quiet()
     C = K.corpus()
@@ -783,6 +925,7 @@ def gen_cases(tier, rng):
                     for k in hand_k:
                         cases.append(_mk("hand:" + hname, r, core, inv, rng.choice(strategies), k, rng))
     cases += _hist_cases(tier, rng)
+    cases += _obj_cases(tier, rng)
     return prepare_all(cases)
 
 
